@@ -37,7 +37,7 @@ func (s *sim) ackersLocked() []string {
 // after every statement that reaches a fake server (ground truth at that instant).
 func (s *sim) installSingleAckerMonitor() {
 	s.w.AfterStmt = func(w *vs.MyWorld, st *vs.Stmt, h *vs.MyHost) {
-		if !st.Mutating {
+		if !st.Mutating || !s.ackerWindow {
 			return
 		}
 		if a := s.ackersLocked(); len(a) > 1 {
@@ -110,12 +110,19 @@ func (s *sim) describe() string {
 }
 
 func (s *sim) dumpTrace(from int) {
-	for _, st := range s.w.StmtsSince(from) {
+	var t0 time.Time
+	for i, st := range s.w.StmtsSince(from) {
+		if i == 0 {
+			t0 = st.At
+		}
 		if st.Mutating || st.Outcome != "ok" {
 			s.c.Tracef("%s %s->%s [%s] %s => %s", st.At.Format("15:04:05.000"), st.Issuer, st.Target, st.Class, st.Query, st.Outcome)
 		}
 	}
 	for _, m := range s.zk.MutSnapshot() {
+		if m.At.Before(t0) {
+			continue
+		}
 		if strings.HasPrefix(m.Path, simNS+"/health") || strings.HasPrefix(m.Path, simNS+"/resetup_status") || strings.HasPrefix(m.Path, simNS+"/timing") {
 			continue
 		}
@@ -204,7 +211,18 @@ func TestVerifC02(t *testing.T) {
 		}
 		s.installSingleAckerMonitor()
 		master0 := s.masterKey()
+		// replication speed knobs: a slow applier leaves received-but-unapplied tails, a slow
+		// download leaves commits waiting for their acknowledgement
+		for _, n := range s.hostNames() {
+			if n == master0 {
+				continue
+			}
+			h := s.w.Hosts[n]
+			h.ApplyDelay = []time.Duration{0, 0, 2 * time.Second, 8 * time.Second}[c.Src.Int("apply_delay."+n, 0, 3)]
+			h.DownloadRate = []float64{0, 0, 0, 150}[c.Src.Int("download_rate."+n, 0, 3)]
+		}
 		traceFrom := s.w.StmtLen()
+		s.traceFrom = traceFrom
 		for i := 0; i < 3; i++ {
 			s.write("pre")
 		}
@@ -220,6 +238,12 @@ func TestVerifC02(t *testing.T) {
 			"zk-cut-master", "zk-cut-replica", "zk-down", "switch-to", "switch-from")
 		c.Class("event:" + ev)
 		rep := replicas[c.Src.Int("replica", 0, len(replicas)-1)]
+		// the statement's clause is "while the fault lasts": the monitor is armed from the
+		// injection to the healing (for a switch request: until the end of the case)
+		s.ackerWindow = true
+		for i, k := 0, c.Src.Int("burst", 0, 3); i < k; i++ { // writes right before the event
+			s.w.ClientWrite(master0, 200)
+		}
 		var heal func()
 		switch ev {
 		case "crash-master":
@@ -290,6 +314,9 @@ func TestVerifC02(t *testing.T) {
 			s.raise()
 		}
 		heal()
+		if !strings.HasPrefix(ev, "switch-") {
+			s.ackerWindow = false
+		}
 		s.randomSteps(c.Src.Int("post_steps", 0, 4), "post")
 		for i := 0; i < 2; i++ {
 			s.write("post")
